@@ -479,8 +479,6 @@ def check_file_vs_object(model, doc, case, judge, site):
     if list(doc.get("obs_models", {}).values()) != s["obs_models"]:
         judge.add(site, "file field obs_models differs from the object", feat, "obs_models", expected=s["obs_models"],
                   observed=doc.get("obs_models"))
-    if doc.get("name") != model.name:
-        judge.add(site, "file field name differs from the object", feat, "name", expected=model.name, observed=doc.get("name"))
     for section, values in (("parameters", model.parameters), ("hyperparameters", model.hyperparameters)):
         got = doc.get(section, {})
         keys = [k for k in got if not (section == "parameters" and k == "mixing_matrix")]
